@@ -1,0 +1,89 @@
+//go:build verif
+
+package exec
+
+// Add-only verification hooks for property C03 (evaluator). Thin wrappers over
+// the unexported scheduling state of Eval (type state, eval.go) and the
+// consecutive-loss counter of Task; no behaviour of their own.
+
+// VerifC03State wraps one *state.
+type VerifC03State struct{ s *state }
+
+// VerifC03NewState returns newState().
+func VerifC03NewState() *VerifC03State { return &VerifC03State{newState()} }
+
+// Enqueue calls state.Enqueue.
+func (v *VerifC03State) Enqueue(t *Task) int { return v.s.Enqueue(t) }
+
+// Return calls state.Return; a panic is reported, not propagated.
+func (v *VerifC03State) Return(t *Task) (panicked bool) {
+	defer func() {
+		if r := recover(); r != nil {
+			panicked = true
+		}
+	}()
+	v.s.Return(t)
+	return false
+}
+
+// Runnable calls state.Runnable.
+func (v *VerifC03State) Runnable() []*Task { return v.s.Runnable() }
+
+// Todo calls state.Todo.
+func (v *VerifC03State) Todo() bool { return v.s.Todo() }
+
+// Done calls state.Done.
+func (v *VerifC03State) Done() bool { return v.s.Done() }
+
+// HasErr reports state.Err() != nil.
+func (v *VerifC03State) HasErr() bool { return v.s.Err() != nil }
+
+// TodoSet returns the keys of state.todo (unordered).
+func (v *VerifC03State) TodoSet() []*Task {
+	var ts []*Task
+	for t, ok := range v.s.todo {
+		if ok {
+			ts = append(ts, t)
+		}
+	}
+	return ts
+}
+
+// PendingSet returns the keys of state.pending (unordered).
+func (v *VerifC03State) PendingSet() []*Task {
+	var ts []*Task
+	for t, ok := range v.s.pending {
+		if ok {
+			ts = append(ts, t)
+		}
+	}
+	return ts
+}
+
+// Count returns state.counts[t].
+func (v *VerifC03State) Count(t *Task) int { return v.s.counts[t] }
+
+// Deps returns the keys of state.deps[src] (unordered).
+func (v *VerifC03State) Deps(src *Task) []*Task {
+	var ts []*Task
+	for t := range v.s.deps[src] {
+		ts = append(ts, t)
+	}
+	return ts
+}
+
+// Wait returns state.wait[t].
+func (v *VerifC03State) Wait(t *Task) (int, bool) {
+	n, ok := v.s.wait[t]
+	return n, ok
+}
+
+// VerifC03ConsecutiveLost returns t.consecutiveLost.
+func VerifC03ConsecutiveLost(t *Task) int {
+	t.Lock()
+	defer t.Unlock()
+	return t.consecutiveLost
+}
+
+// VerifC03MaxConsecutiveLost returns the constant maxConsecutiveLost.
+func VerifC03MaxConsecutiveLost() int { return maxConsecutiveLost }
